@@ -145,10 +145,11 @@ def z(sort):
 
 class V:
     """symbolic value: z3 term + contract sort"""
-    __slots__ = ("t", "s")
+    __slots__ = ("t", "s", "lazy")
 
-    def __init__(self, t, s):
+    def __init__(self, t, s, lazy=None):
         self.t, self.s = t, s
+        self.lazy = lazy        # set of heap keys a lazy iterator keeps reading (None: a plain value / snapshot)
 
     def __repr__(self):
         return "V(%s:%s)" % (self.t, self.s)
